@@ -55,6 +55,8 @@ type Ctx struct {
 	decls     []string
 	declared  map[string]bool
 	asserts   []string
+	assertTag []int // per assertion: index of the basic block being translated when it was made (-1: global)
+	curTag    int
 	nfresh    int
 	mathInts  bool
 	classes   map[string]Sort // heap class -> array sort
@@ -72,7 +74,7 @@ type Ctx struct {
 }
 
 func newCtx(prog *Program) *Ctx {
-	c := &Ctx{declared: map[string]bool{}, classes: map[string]Sort{}, dtDone: map[string]bool{}, tpSorts: map[string]bool{}, notes: map[string]bool{}, tagOf: map[string]int{}, prog: prog}
+	c := &Ctx{declared: map[string]bool{}, classes: map[string]Sort{}, dtDone: map[string]bool{}, tpSorts: map[string]bool{}, notes: map[string]bool{}, tagOf: map[string]int{}, prog: prog, curTag: -1}
 	c.qual = func(p *types.Package) string {
 		if p == nil {
 			return ""
@@ -93,7 +95,19 @@ func (c *Ctx) decl(s string) {
 	}
 }
 
-func (c *Ctx) assert(s string) { c.asserts = append(c.asserts, s) }
+func (c *Ctx) assert(s string) {
+	c.asserts = append(c.asserts, s)
+	c.assertTag = append(c.assertTag, c.curTag)
+}
+
+// global runs f with assertions tagged as global: facts emitted once per term (interior references, closed
+// entry heap, set views) are needed wherever the term is used, not only below the block that used it first.
+func (c *Ctx) global(f func()) {
+	t := c.curTag
+	c.curTag = -1
+	f()
+	c.curTag = t
+}
 
 func (c *Ctx) fresh(prefix string, s Sort) string {
 	c.nfresh++
@@ -363,7 +377,9 @@ func (c *Ctx) subRef(structName string, f *types.Var, base string) string {
 		if _, ok := c.tagOf["sub:"+fn]; !ok {
 			c.tagOf["sub:"+fn] = len(c.tagOf) + 1
 		}
-		c.assert(fmt.Sprintf("(and (< %s 0) (= (root %s) (root %s)) (= (%s_inv %s) %s) (= (subtag %s) %d))", t, t, base, fn, t, base, t, c.tagOf["sub:"+fn]))
+		c.global(func() {
+			c.assert(fmt.Sprintf("(and (< %s 0) (= (root %s) (root %s)) (= (%s_inv %s) %s) (= (subtag %s) %d))", t, t, base, fn, t, base, t, c.tagOf["sub:"+fn]))
+		})
 	}
 	return t
 }
@@ -378,7 +394,9 @@ func (c *Ctx) elemRef(arr, idx string) string {
 	key := "subfacts:" + t
 	if !c.declared[key] && !strings.Contains(t, "q_") { // (terms under a quantifier mention bound variables: no global facts)
 		c.declared[key] = true
-		c.assert(fmt.Sprintf("(and (< %s 0) (= (root %s) (root %s)) (= (elemref_arr %s) %s) (= (elemref_idx %s) %s) (= (subtag %s) 0))", t, t, arr, t, arr, t, idx, t))
+		c.global(func() {
+			c.assert(fmt.Sprintf("(and (< %s 0) (= (root %s) (root %s)) (= (elemref_arr %s) %s) (= (elemref_idx %s) %s) (= (subtag %s) 0))", t, t, arr, t, arr, t, idx, t))
+		})
 	}
 	return t
 }
